@@ -423,6 +423,77 @@ example (d : Disc) :
     lookupField (fieldsOf (hc.1.cells hc.2)) "pattern_select" = some (.arr [3] [7, 8, 9]) := by
   decide +kernel
 
+/-! ### "nothing to do" fast paths: a normalisation step that is the identity on its input (round 6) -/
+
+/-- a Dataset whose two patterns are **centred already** (every row mean exactly 0) and handed to an
+    estimator without a descriptor: `np.asarray(dataset.measurements, dtype=float)` *is* the
+    caller's float64 array -/
+def centredHeap : Heap :=
+  { cells := fun l => match l with
+      | 0 => .obj [("measurements", .arr [2, 2] [1, 2, 3, 4]), ("descriptors", .dict 5),
+                   ("obs_descriptors", .dict 6), ("channel_descriptors", .dict 7)]
+      | 1 => .val "3.0" | 2 => .val "-3.0" | 3 => .val "-0.5" | 4 => .val "0.5"
+      | 5 => .dict [("subj", ["3"])]
+      | 6 => .dict [("trial", ["0", "1"])]
+      | 7 => .dict [("vox", ["v0", "v1"])]
+      | _ => .free,
+    next := 8 }
+
+/-- the RDM object `calc_rdm_correlation` returns for `centredHeap` (always newly built) -/
+def correlationResult : List (String × FieldSpec) :=
+  [("dissimilarities", .freshArr [1, 1] ["2.0"]),
+   ("descriptors", .freshDict [("subj", ["3"])]),
+   ("rdm_descriptors", .freshDict [("index", ["0"])]),
+   ("pattern_descriptors", .freshDict [("trial", ["0", "1"]), ("index", ["0", "1"])])]
+
+/-- `calc_rdm_correlation` with a centring helper that **returns its argument when there is nothing
+    to remove** (seeded change C12-10).  `nothingToDo` is the outcome of the helper's test
+    (`not np.any(pattern_means)`): when it holds, the array the in-place normalisation `ma /= norms`
+    writes is the source's own `measurements`; otherwise (`measurements - means` allocates, as
+    coded) the division works on a temporary and nothing is written to the source. -/
+def correlationFastPath (nothingToDo : Bool) : Producer :=
+  { srcWrites := if nothingToDo then [.setEls "measurements" ["0.70710678", "-0.70710678", "-0.70710678", "0.70710678"]]
+                 else [],
+    fields := correlationResult }
+
+/-- **identity fast path + in-place step**: the returned RDM object is freshly allocated and
+    separated from the argument in both cases — no later history can tell the two programs apart —
+    yet on input for which the fast path's test holds the producer is not `fresh` and the *call
+    itself* rescales the caller's rows to unit length; for every other input (and as coded, for
+    every input) it is fresh and the argument's labelled content is unchanged.  Hence only data on
+    which the normalisation step is the identity distinguish the two programs: the generator must
+    contain such data. -/
+theorem identity_fast_path_counterexample (d : Disc) :
+    (let hc := produce centredHeap 0 (correlationFastPath true)
+     (correlationFastPath true).fresh = false ∧ sepB d hc.1 [0] [hc.2] = true ∧
+     content hc.1 0 ≠ content centredHeap 0 ∧
+     readArr hc.1 0 "measurements" = ([2, 2], ["0.70710678", "-0.70710678", "-0.70710678", "0.70710678"])) ∧
+    (let hk := produce centredHeap 0 (correlationFastPath false)
+     (correlationFastPath false).fresh = true ∧ sepB d hk.1 [0] [hk.2] = true ∧
+     content hk.1 0 = content centredHeap 0 ∧
+     content hk.1 hk.2 = content (produce centredHeap 0 (correlationFastPath true)).1
+                           (produce centredHeap 0 (correlationFastPath true)).2) := by
+  cases d <;> decide +kernel
+
+/-- for *every* outcome of the test: the program is `fresh` exactly when the fast path is not taken,
+    and then the general theorem applies (non-vacuity of `fresh_producer_sep` on a Dataset) -/
+theorem identity_fast_path_fresh_iff (nothingToDo : Bool) :
+    (correlationFastPath nothingToDo).fresh = !nothingToDo := by
+  cases nothingToDo <;> decide
+
+theorem centred_closed : Closed centredHeap [0] := by
+  intro l hl
+  have : l ∈ [0, 1, 2, 3, 4, 5, 6, 7] := by
+    simpa [reachSide, reach, cellReach, fieldsOf, centredHeap, fieldLocs] using hl
+  simp only [List.mem_cons, List.mem_nil_iff, or_false] at this
+  show l < 8
+  omega
+
+example (d : Disc) :
+    Inv d (produce centredHeap 0 (correlationFastPath false)).1 [0]
+      [(produce centredHeap 0 (correlationFastPath false)).2] :=
+  (fresh_producer_sep d centredHeap 0 centred_closed _ (identity_fast_path_fresh_iff false)).2
+
 /-! ### derived-object constructors of `RDMs` (heap programs `ctorProducer`) -/
 
 /-- the multi-source form of `fresh_producer_sep`: a fresh producer leaves the labelled content
